@@ -125,12 +125,13 @@ Definition srv_reply3 (sp : sparams) (f1 f2 f3 : bytes) : option bytes :=
 (* the server as an environment of the client *)
 Definition srv_env (sp : sparams) : env :=
   fun hist =>
-    match hist with
-    | [f1] => srv_reply1 sp f1
-    | [f1; f2] => srv_reply2 sp f1 f2
-    | [f1; f2; f3] => srv_reply3 sp f1 f2 f3
-    | _ => None
-    end.
+    option_map Reply
+      match hist with
+      | [f1] => srv_reply1 sp f1
+      | [f1; f2] => srv_reply2 sp f1 f2
+      | [f1; f2; f3] => srv_reply3 sp f1 f2 f3
+      | _ => None
+      end.
 
 (* ---- what the specification demands of the server's choices ---- *)
 Definition rsa_pair (n e d : N) : Prop := forall m, m < n -> sexp (sexp m e n) d n = m.
